@@ -322,8 +322,17 @@ def gen_description(rng, force=None, hostile=True, child_types=None):
         if force == "mixed-case-options":
             checksums["images/boot.iso"] = ["sha256", "a" * 64]
             checksums["Images/Boot.iso"] = ["sha256", "b" * 64]
+    checksums_direct = False
+    if checksums and (force == "checksum-keys-as-spelled" or rng.random() < 0.2):
+        # the table filled directly (not through add(), which normalises): two spellings of one file are two entries
+        checksums_direct = True
+        for p in list(checksums)[:2]:
+            alt = rng.choice(["./" + p, p.replace("/", "//", 1) if "/" in p else "./" + p, "x/../" + p, p + "/"])
+            if representable_option(alt):
+                checksums[alt] = ["sha256", text.chars(rng, HEX, 64, 64)]
     return {"release": rel, "base_product": bp, "tree": {"arch": arch, "build_timestamp": ts, "platforms": platforms},
-            "variants": variants, "images": images, "stage2": stage2, "media": media, "checksums": checksums}
+            "variants": variants, "images": images, "stage2": stage2, "media": media, "checksums": checksums,
+            "checksums_direct": checksums_direct}
 
 
 def iter_nodes(variants):
@@ -354,6 +363,8 @@ def classes_of(D):
         out.add("media-ten-or-more")
     if len(D.get("checksums") or {}) >= 10:
         out.add("checksums-ten-or-more")
+    if D.get("checksums_direct"):
+        out.add("checksum-keys-as-spelled")
     if any(("-" in pl and pl.endswith("-" + D["tree"]["arch"])) for pl in D["images"]):
         out.add("platform-named-like-legacy-section")
     if len(D["variants"]) > 1:
@@ -467,7 +478,10 @@ def build(pm, D, rng=None, use_checksums_add=False):
         if rng is not None:
             rng.shuffle(items)
         for path, (t, val) in items:
-            ti.checksums.add(path, t, val)
+            if D.get("checksums_direct"):
+                ti.checksums.checksums[path] = [t, val]        # the public table filled directly: keys are kept as spelled
+            else:
+                ti.checksums.add(path, t, val)
 
     steps = [s_release, s_tree, s_variants, s_images, s_stage2, s_media, s_checksums]
     if rng is not None:
